@@ -386,6 +386,9 @@ func finish(p *propDef, id, tier string, seed int, t0 time.Time, njobs int, m *m
 		fresh = append(fresh, Viol{Kind: "fatal", Msg: c, Site: "process death", Job: strings.Fields(strings.TrimPrefix(c, "job "))[0]})
 	}
 
+	for i := range fresh {
+		fmt.Fprintf(os.Stderr, "  fresh violation %d: %s\n      %s\n", i+1, sigLine(&fresh[i]), firstLine(fresh[i].Msg))
+	}
 	// confirm fresh violations by replaying them 3x in fresh processes
 	os.MkdirAll(filepath.Join(verifDir, "replays"), 0755)
 	var confirmed []string
